@@ -1219,6 +1219,59 @@ pub fn gen_c17(rng: &mut Prng, thorough: bool, out: &mut Out) {
     }
 }
 
+
+pub fn gen_c20(rng: &mut Prng, thorough: bool, out: &mut Out) {
+    for g1 in [true, false] {
+        let n = if thorough { 24 } else { 6 };
+        let pk = rng.scalar();
+        let msg = rng.bytes(20);
+        let sig = sig_dlog(g1, 0, &pk, &msg);
+        // identical arguments, different seeds (and one repeated seed: the outputs are functions of the seed)
+        let mut seeds: Vec<Vec<u8>> = (0..n).map(|_| rng.bytes(32)).collect();
+        seeds.push(seeds[0].clone());
+        seeds.push(vec![0u8; 32]);
+        for seed in &seeds {
+            let sd = hx(seed);
+            out.case(g1, &format!("sk_new x{}", sd));
+            out.case(g1, &format!("challenge_new x{}", sd));
+            out.case(g1, &format!("sk_split_tap s{} n2 n3 x{}", hs(&pk), sd));
+            out.case(g1, &format!("sk_split_tap s{} n1 n3 x{}", hs(&pk), sd));
+            out.case(g1, &format!("pk_sign_crypt q{} cbasic x{} x{}", hs(&pk), hx(&msg), sd));
+            out.case(g1, &format!("pk_encrypt_time_lock q{} cpop x{} x6964 x{}", hs(&pk), hx(&msg), sd));
+            out.case(g1, &format!("pk_encrypt_time_lock q00 cpop x{} x6964 x{}", hx(&msg), sd));
+            out.case(g1, &format!("eg_encrypt q{} s{} x{}", hs(&pk), hs(&pk), sd));
+            out.case(g1, &format!("eg_encrypt_proof q{} s{} x{}", hs(&pk), hs(&pk), sd));
+            out.case(g1, &format!("pc_generate x{} cbasic p{} [ x{} ]", hx(&msg), hs(&sig), sd));
+            out.case(g1, &format!("pokts_generate x{} cbasic p{} [ x{} ]", hx(&msg), hs(&sig), sd));
+            out.case(g1, &format!("pokts_generate x{} cbasic p00 [ x{} ]", hx(&msg), sd));
+        }
+    }
+}
+
+pub fn gen_c03(rng: &mut Prng, thorough: bool, out: &mut Out) {
+    for g1 in [true, false] {
+        for len in [0usize, 1, 31, 32, 33, 64, 200] {
+            for _ in 0..(if thorough { 6 } else { 2 }) {
+                out.case(g1, &format!("sk_from_hash x{}", hx(&rng.bytes(len))));
+            }
+        }
+        let keys = pick_keys(rng, if thorough { 10 } else { 5 });
+        for sk in &keys {
+            out.case(g1, &format!("sk_public_key s{}", hs(sk)));
+            out.case(g1, &format!("pop_prove s{}", hs(sk)));
+            let pd = eta(&enc_pk(g1, sk), &dst_pop(g1)) * sk;
+            out.case(g1, &format!("pop_verify p{} q{}", hs(&pd), hs(sk)));
+            for scheme in 0..3u8 {
+                for m in some_messages(rng) {
+                    out.case(g1, &format!("sk_sign s{} c{} x{}", hs(sk), SCH[scheme as usize], hx(&m)));
+                    out.case(g1, &format!("sig_verify c{} p{} q{} x{}", SCH[scheme as usize], hs(&sig_dlog(g1, scheme, sk, &m)), hs(sk), hx(&m)));
+                }
+            }
+        }
+    }
+    gen_c06(rng, false, out);
+}
+
 pub fn generate(prop: &str, thorough: bool, seed: u64) -> Out {
     let mut rng = Prng(seed ^ 0xB15F_u64.wrapping_mul(prop.bytes().fold(7u64, |a, b| a.wrapping_mul(131).wrapping_add(b as u64))));
     let mut out = Out::new();
@@ -1236,6 +1289,8 @@ pub fn generate(prop: &str, thorough: bool, seed: u64) -> Out {
         "C12" => gen_c12(&mut rng, thorough, &mut out),
         "C13" => gen_c13(&mut rng, thorough, &mut out),
         "C14" => gen_c14(&mut rng, thorough, &mut out),
+        "C03" => gen_c03(&mut rng, thorough, &mut out),
+        "C20" => gen_c20(&mut rng, thorough, &mut out),
         "C15" => gen_c15(&mut rng, thorough, &mut out),
         "C16" => gen_c16(&mut rng, thorough, &mut out),
         "C17" => gen_c17(&mut rng, thorough, &mut out),
